@@ -556,8 +556,7 @@ class INC(AbstractOperation):
         # The increment value encoded in the instruction is one less than the actual
         # increment, i.e. INC(R1, 1) is assembled as if it were INC(R1, 0) since the
         # latter is illegal.
-        bv = super().assemble()
-        return bytes([bv[0], bv[1] - 1])
+        return substitute_bitvector(self.BITV, [self.args[0], self.args[1] - 1])
 
     @classmethod
     def disassemble(cls, arg0, arg1):
@@ -591,8 +590,7 @@ class DEC(AbstractOperation):
         # The decrement value encoded in the instruction is one less than the actual
         # decrement, i.e. DEC(R1, 1) is assembled as if it were DEC(R1, 0) since the
         # latter is illegal.
-        bv = super().assemble()
-        return bytes([bv[0], bv[1] - 1])
+        return substitute_bitvector(self.BITV, [self.args[0], self.args[1] - 1])
 
     @classmethod
     def disassemble(cls, arg0, arg1):
